@@ -14,10 +14,11 @@ the scores of `Core/Bm25` and runs `search`; the harness compares ids, order and
 `IndexReader::search`.
 
 The score half of the property ("equals BM25 combined through boosts and scoring functions") is
-a definition in the model (`SL.Bm25.finalScore`) and is carried by the correspondence — except
-for one mechanism that the code gets wrong and that is modelled as it is: single-value reads of
-numeric fast fields (`colRead`) differ from the documented meaning (`colSpec`) on list columns;
-see `colRead_eq_spec_partial` / `colRead_leaks_next_document`.
+a definition in the model (`SL.Bm25.finalScore`) and is carried by the correspondence.  One
+mechanism underneath it is proved: single-value reads of numeric fast fields (`colRead`) equal
+the documented meaning (`colSpec`) — `colRead_eq_spec`, a full theorem since the repair of
+/repo commit 96697a7; the legacy read keeps `legacy_colRead_eq_spec_partial` and the negative
+witness `colRead_leaks_next_document`.
 -/
 set_option linter.unusedSimpArgs false
 namespace SL.Sort
@@ -314,33 +315,58 @@ namespace SL.Bm25
 
 /-! ### single-value reads of numeric fast fields (score functions)
 
-**Full statement (false of the unchanged code):** `∀ col doc, colRead col doc = colSpec col doc`. -/
+Since /repo commit 96697a7 the read tests that the document's range is non-empty; the statement
+`∀ col doc, colRead col doc = colSpec col doc` is now a theorem.  The legacy read
+(`colReadLegacy`) keeps its partial theorem and its negative witness as documentation of the
+repaired defect (known finding `score.list-column-missing`, fixed). -/
 
-/-- the read is right on plain columns and, on list columns, for documents that have a value -/
-theorem colRead_eq_spec_partial {α : Type} (col : List (List α)) (doc : Nat)
-    (h : isListCol col = false ∨ ∃ v vs, col[doc]? = some (v :: vs)) :
+theorem drop_flatten_head {α : Type} (col : List (List α)) (doc : Nat) (v : α) (vs : List α)
+    (h : col[doc]? = some (v :: vs)) : (col.drop doc).flatten.head? = some v := by
+  have hlt : doc < col.length := (List.getElem?_eq_some_iff.mp h).1
+  have hget : col[doc] = v :: vs := by
+    have := List.getElem?_eq_getElem hlt
+    rw [this] at h; exact Option.some.inj h
+  rw [List.drop_eq_getElem_cons hlt, hget]
+  simp
+
+/-- **The single-value read of a numeric fast field is the document's own first value**, on
+plain and on list columns, `none` exactly when the document has no value (so score functions
+fall back to `missing`). -/
+theorem colRead_eq_spec {α : Type} (col : List (List α)) (doc : Nat) :
     colRead col doc = colSpec col doc := by
   unfold colRead colSpec
+  split
+  · cases h : col[doc]? with
+    | none => rfl
+    | some vs =>
+      cases vs with
+      | nil => rfl
+      | cons v r =>
+        simp only [List.isEmpty_cons, Bool.false_eq_true, if_false, List.head?_cons]
+        exact drop_flatten_head col doc v r h
+  · rfl
+
+/-- legacy read: right on plain columns and, on list columns, for documents that have a value -/
+theorem legacy_colRead_eq_spec_partial {α : Type} (col : List (List α)) (doc : Nat)
+    (h : isListCol col = false ∨ ∃ v vs, col[doc]? = some (v :: vs)) :
+    colReadLegacy col doc = colSpec col doc := by
+  unfold colReadLegacy colSpec
   rcases h with h | ⟨v, vs, h⟩
   · simp [h]
   · split
-    · have hlt : doc < col.length := by
-        cases hd : col[doc]? with
-        | none => simp [hd] at h
-        | some _ => exact (List.getElem?_eq_some_iff.mp hd).1
-      have hget : col[doc] = v :: vs := by
-        have := List.getElem?_eq_getElem hlt
-        rw [this] at h; exact Option.some.inj h
-      rw [List.drop_eq_getElem_cons hlt, hget, h]
-      simp
+    · rw [drop_flatten_head col doc v vs h, h]; rfl
     · rfl
 
-/-- **negative witness**: a document without a value reads the next document's first value -/
+/-- **legacy negative witness** (the defect repaired by 96697a7): a document without a value
+read the next document's first value; the repaired read does not -/
 theorem colRead_leaks_next_document :
-    colRead [([] : List Nat), [7, 8], [3]] 0 = some 7 ∧ colSpec [([] : List Nat), [7, 8], [3]] 0 = none := by
+    colReadLegacy [([] : List Nat), [7, 8], [3]] 0 = some 7 ∧
+      colSpec [([] : List Nat), [7, 8], [3]] 0 = none ∧
+      colRead [([] : List Nat), [7, 8], [3]] 0 = none := by
   decide
 
 example : colRead [([] : List Nat), [7], [3]] 0 = none := by decide
-example : colRead [[1], ([] : List Nat), [7, 8]] 0 = some 1 := by decide
+example : colRead [[1], ([] : List Nat), [7, 8]] 2 = some 7 := by decide
+example : colRead [[1], ([] : List Nat), [7, 8]] 1 = none := by decide
 
 end SL.Bm25
